@@ -675,6 +675,13 @@ class Engine:
         summ = self.summaries.get(name) or self.summaries.get(declared)
         if summ is None and name.startswith('std::convert::num::<impl std::convert::From<') and name.endswith('>::from'):
             summ = self.summaries.get('<T as std::convert::Into<U>>::into')     # lossless integer / float widening
+        if summ is None and name.startswith('std::convert::num::') and name.endswith('>::try_from'):
+            import re as _re
+            mt = _re.search(r'<impl std::convert::TryFrom<(\w+)> for (\w+)>::try_from$', name)
+            if mt:
+                from .summaries import int_try_from, INT_RANGE
+                if mt.group(1) in INT_RANGE and mt.group(2) in INT_RANGE:
+                    summ = int_try_from(mt.group(1), mt.group(2))
         if summ is not None:
             res = summ(self, st, fr, args, fn, site)
             if res is not None:
